@@ -81,6 +81,11 @@ CHECKS = {
          'Robustness: a 6-line valid inventory is mutated in every single way of the fault alphabet - every truncation point of header and compressed body, every byte of header and of the uncompressed payload replaced by each of {NUL, LF, #, space, 0xFF, x}, each header line removed or duplicated, 8 body encodings (raw, gzip, zlib of garbage, empty, trailing junk, double zlib, raw deflate, CRLF), 5 URL shapes, and every payload line of up to 5 (thorough 6) columns over a 7-token column alphabet between two control lines (thorough: 140 588 loads). update() must return; untouched control lines must still resolve; a line that is neither used nor a non-py line must be reported; a wholly unusable file must be reported. Round trip: for every single-feature project x 3 privacy variants and every feature pair, objects.inv written by the real driver is read by SphinxInventory (stub cache) and by Sphinx InventoryFile: names = visible objects reachable through contents, each once, link = base + obj.url.',
          'Trusted: Sphinx 9.1 as second reader; the reference reading of the line format (type column = the one before the first integer column).',
          'DESIGN.md section 5, C17'),
+ 'C10': ('exploration',
+         'exhaustive enumeration of payloads x sinks (thorough: sink pairs) as full driver runs; every written page parsed with expat and walked as a DOM with marker names',
+         'A 34-payload alphabet (tags, attribute break-outs for both quote styles, closing tags, script in two spellings, bare ampersand, entity look-alikes, CDATA / comment / PI delimiters, C0/C1 controls, U+FFFE, U+2028, javascript: URL, word-wrap-point literals, reST injection through non-LF line separators and backquotes) is planted in each of 48 sinks (docstring words, inline code, literal/doctest/code blocks, field bodies and arguments, @ivar names, xref targets and labels, URLs, titles - per docformat; string/bytes/multi-line/regex/f-string constants, defaults, annotations, Literal, type comments, decorators, bases and class keywords, __all__/__docformat__, deprecated() texts, zope attributes, attribute docstrings, constructor summaries, summaries, __doc__ assignment, overloads, attrs, file names, project name/URL/version options). Every case is a full driver run; every page must parse as XML and the markers may occur only in text nodes and attribute values, never as element/attribute names, comments, CDATA, PIs, inside script/style, in on* attributes or javascript: URLs; verbatim sinks must show the payload literally (escaped exactly once). Thorough adds all ordered pairs of 43 sinks with the two most dangerous payloads.',
+         'Trusted: expat as well-formedness authority; the marker discipline (an injection is recognisable by name, no reference run needed). Explicit raw/include directives and explicit link targets written by the docstring author are outside the statement.',
+         'DESIGN.md section 5, C10'),
 }
 
 
